@@ -3,10 +3,11 @@
 for item in $1; do
   seed=${item%%:*}; checks=$(echo ${item#*:} | tr , ' ')
   prop=$(echo $seed | cut -d/ -f1)
-  /venv/bin/python /verif/tools/seedtest.py /tmp/seed-out/$seed $(echo $seed | tr / -) $prop $checks > /tmp/seed-out/$(echo $seed | tr / -).result 2>&1
+  /venv/bin/python /verif/tools/seedtest.py ${SEED_SRC:-/tmp/seed-out}/$seed $(echo $seed | tr / -) $prop $checks > ${SEED_SRC:-/tmp/seed-out}/$(echo $seed | tr / -).result 2>&1
   /venv/bin/python - "$seed" <<'PY'
 import sys,json
-seed=sys.argv[1]; f='/tmp/seed-out/'+seed.replace('/','-')+'.result'
+import os
+seed=sys.argv[1]; f=os.environ.get('SEED_SRC','/tmp/seed-out')+'/'+seed.replace('/','-')+'.result'
 t=open(f).read()
 try:
     d=json.loads(t[t.index('{\n'):]); print(d['seed'],'confirmed',d.get('confirmed'),{k:(v['exit'],v['clauses']) for k,v in d['checks'].items()})
